@@ -91,9 +91,11 @@ def encryptSearchableWith (k : Kind) (c : CryptoOps) (st : Store) (data : Bytes)
   Searchable.translatorEncrypt c (st.hmac id) (st.keys id) k data rnd
 
 /-- `DecryptSearchable` / `DecryptSymSearchable`: the hash comes as a separate argument (`some`) or
-in front of the envelope (`none`). If no hash can be cut off, `DecryptSearchable` fails at once while
-`DecryptSymSearchable` first runs the poison detector over the whole input; then both reveal the rest
-with the handler of their kind (failure ⇒ poison scan of the rest, error) and verify the hash. -/
+in front of the envelope (`none`). If no hash can be cut off, the poison detector runs over the whole
+input and the client gets an error (on the pinned tree only `DecryptSymSearchable` did that,
+`DecryptSearchable` failed at once – repaired by "fix: DecryptSearchable checks for poison records when
+no hash can be split off"); otherwise the rest is revealed with the handler of the kind (failure ⇒ poison
+scan of the rest, error) and the hash is verified. -/
 def decryptSearchableWith (k : Kind) (c : CryptoOps) (st : Store) (data : Bytes) (hash : Option Bytes)
     (clientID addCtx : Option Bytes) : Out Bytes × Nat :=
   match checkRequest false clientID addCtx with
@@ -102,10 +104,7 @@ def decryptSearchableWith (k : Kind) (c : CryptoOps) (st : Store) (data : Bytes)
   | .ok id =>
     let d := dataToDecrypt data hash
     match extractHashAndData d with
-    | none =>
-      match k with
-      | .struct => (.err, 0)
-      | .block => (.err, poisonScan c st.poison d)
+    | none => (.err, poisonScan c st.poison d)
     | some (h, container) =>
       match Envelope.translatorDecrypt c st.poison (st.keys id) k container with
       | (.ok plain, a) => if isEqual c (st.hmac id) h plain then (.ok plain, a) else (.err, a)
